@@ -339,10 +339,24 @@ fn related_member_line(rng: &mut Rng, line: &str) -> Option<String> {
     } else {
         name
     };
-    match rng.below(5) {
+    match rng.below(6) {
         4 => {
             // the mirror image `b:a:` of `a:b:` (a different range unless a == b)
             Some(format!("    {}:{}:{}{} -> {}", b, a, sig, tail, name))
+        }
+        5 => {
+            // the directly PRECEDING chunk (`a-span-1 : a-1`, originals shifted back likewise), listed
+            // after this one: entries stay in file order, whatever their numbers say
+            if a <= span + 1 {
+                return None;
+            }
+            let (na, nb) = (a - span - 1, a - 1);
+            let t = match orig.as_slice() {
+                [c, d] if d >= c && *c > (d - c) + 1 => format!(":{}:{}", c - (d - c) - 1, c - 1),
+                [c] if *c > span + 1 => format!(":{}", c - span - 1),
+                _ => tail.to_string(),
+            };
+            Some(format!("    {}:{}:{}{} -> {}", na, nb, sig, t, name))
         }
         0 => {
             // contiguous continuation
